@@ -25,6 +25,14 @@ CONFIGS = {
     "plain": {"cc": "gcc", "cflags": ["-O1", "-g"], "ldflags": []},
 }
 
+SAN_PREFIX = ("__asan_", "__ubsan_", "__tsan_", "__sanitizer_", "__lsan_", "__msan_")
+if os.environ.get("VERIF_COV"):
+    # coverage survey (tools/coverage.sh): same harness, library compiled with gcov counters
+    for _c in CONFIGS.values():
+        _c["cflags"] = _c["cflags"] + ["--coverage", "-fprofile-update=atomic", "-DVERIF_COV"]
+        _c["ldflags"] = _c["ldflags"] + ["--coverage"]
+    SAN_PREFIX = SAN_PREFIX + ("__gcov_",)
+
 # libc imports of the library that have no effect the monitors care about
 PURE = {
     "memcpy", "memset", "memmove", "memcmp", "strlen", "strcpy", "strncpy", "strchr", "strrchr",
@@ -33,7 +41,6 @@ PURE = {
     "_GLOBAL_OFFSET_TABLE_", "__tls_get_addr", "strnlen", "memchr", "__memcpy_chk",
     "__strcpy_chk", "__memset_chk",
 }
-SAN_PREFIX = ("__asan_", "__ubsan_", "__tsan_", "__sanitizer_", "__lsan_", "__msan_")
 
 
 class Inconclusive(Exception):
